@@ -64,6 +64,10 @@ CHECKS = {
    technique="bounded-exhaustive enumeration of query programs (all token sequences up to k over the token alphabet, all reflected accessor chains up to depth 3 x function suffixes, all single-token mutations of examples, all short byte strings) in crash-isolating worker subprocesses",
    text="Every sequence of up to 3 (quick) / 4 (thorough) tokens over a 36-token alphabet, every accessor chain up to length 3 over the methods and fields reflection exposes from *Document (computed at run time, so new methods are included) with 15 function suffixes, every single-token deletion/duplication/swap of 14 examples and every byte string up to 4 over 8 bytes, parsed and evaluated on four documents (singly and in pairs); every value is written by all five formatters. ParseString must return engine xor error, Evaluate value or error, Write nil or error; no recovered panic, no process death (stack overflow), no hang.",
    note="Workers announce each case before running it; a process death is attributed to the announced case and the unit resumes after it. Since fix dbd0690 panics inside Evaluate surface as errors, so expression-level reflection faults are now C16's business (wrong result / unexpected error), not C15's."),
+ "C16": dict(engine="E3", category="translation_validation", design_ref="§4 C16",
+   technique="bounded-exhaustive enumeration of all well-typed query programs up to pipeline depth d from a typed grammar, each executed by the real engine and by an independent reference interpreter over the Go API (differential), plus document-purity and determinism checks",
+   text="Every well-typed program up to pipeline depth 3 (quick; reduced step alphabet from the third step) / 4 (thorough) over 34 accessors, First/Last(0..4), Length, NodesWithTagPath, Only (7 chains x 6 operators x numeric/text/mixed constants), object construction, variable forms and Combine, on 6 documents; the JSON-normalised engine result must equal the reference interpreter's (map in order, prefix/suffix, len, order-preserving filter with the documented comparison rule, concatenation, tag-path lookup, substitution); the document must look untouched afterwards; a second evaluation must give the same result.",
+   note="Trusts the hand-written signature table and the reference interpreter in harness/cmd/c16. Missing values are judged by what the (nil-safe) Go API call gives; if that call panics nothing is demanded. null and an empty list are the same 'nothing'. One known finding (nil list through First/Last) is pinned by the repository's own tests."),
  "C20": dict(engine="E3", category="exploration", design_ref="§4 C20",
    technique="bounded-exhaustive enumeration of skeleton family graphs x all slot assignments with up to k deviations from threshold lattices x all record/child permutations, against an independent reference evaluator of the documented warning conditions",
    text="Skeleton documents (two families sharing a parent with 0-3 children; a 5-record family) with each date/sex slot either at a no-warning default or at a value clearly on one side of a documented threshold; every assignment with up to 2 (quick) / 3 (thorough) deviating slots; all 120 record orders x both child orders of the small skeleton; the multiset of (warning name, people, context) from Document.Warnings() must equal the reference evaluator's.",
